@@ -285,7 +285,7 @@ class ChainEnv:
 
     def _build_spin(self):
         rng = self.rng
-        n = int(rng.integers(2, 6))
+        n = int(rng.integers(2, 6)) if rng.random() < 0.8 else 1       # one-site chains too
         desc = [["spin", f"s{i}"] for i in range(n)]
         self.desc = dict(kind="spin", basis=desc)
         basis = L.build_basis(desc)
@@ -561,13 +561,39 @@ def chain_ops(env):
             nm = "entropy"
         else:
             def call():
-                S.todense()
+                # what a measurement hands out is the caller's: editing it in place must not reach the objects
+                d = S.todense()
                 try:
-                    S.calc_edof_rdm()
+                    d *= 0.5
+                except Exception:
+                    pass
+                if O.site_num <= 6:
+                    dO = O.todense()
+                    try:
+                        dO *= 0.5
+                    except Exception:
+                        pass
+                try:
+                    r = S.calc_edof_rdm()
+                    r *= 0.5
                 except Exception:
                     pass
             nm = "todense/edof_rdm"
         return nm, args, False, call, {}
+
+    def op_tree_from_mps():
+        # chain -> tree conversion: the tree is a new object; rescaling it in place (root and every other node) must not
+        # reach the chain state it was made from
+        s = env.pick(env.states(mps_only=True))
+        S = env.objs[s]
+
+        def call():
+            from renormalizer.tn.tree import from_mps
+            _basis, t, _o = from_mps(S)
+            t.scale(2.5, inplace=True)
+            for nd in t.node_list:
+                nd.tensor *= 0.5
+        return "tn.from_mps+rescale-in-place", [s], False, call, {}
 
     def op_copy_then_mutate():
         s = env.pick(env.states() + env.mpos())
@@ -710,7 +736,7 @@ def chain_ops(env):
     return [op_copy, op_metacopy, op_conj, op_to_complex, op_scale, op_add, op_add, op_add_mpdm, op_add_mpo, op_distance,
             op_dot, op_apply, op_apply, op_mpdm_apply, op_mpo_mpo, op_conj_trans, op_variational, op_measure, op_measure,
             op_copy_then_mutate, op_copy_then_mutate, op_from_mps, op_evolve, op_evolve, op_evolve, op_evolve, op_evolve,
-            op_evolve_exact, op_evolve_exact, op_optimize, op_expand]
+            op_evolve_exact, op_evolve_exact, op_optimize, op_expand, op_tree_from_mps]
 
 
 def run_chain_call(run, env, thunk):
